@@ -39,7 +39,7 @@ SERVER_TOO = 'server-too'
 
 
 def prop(pid, *flags, **kw):
-    PROPS[pid] = dict(id=pid, verus=[], kani=[], assumptions=[], bounded=[], not_covered='') | kw
+    PROPS[pid] = dict(id=pid, verus=[], kani=[], native=[], assumptions=[], bounded=[], not_covered='') | kw
     if SERVER_TOO in flags:
         PROPS[pid]['verus'] = list(PROPS[pid]['verus']) + ['server']
         for a in ['A-abortable', 'A-sink', 'A-mpsc', 'A-delayqueue']:
@@ -150,3 +150,20 @@ prop('C12', title='Per-channel request limit throttles exactly the excess',
      assumptions=COMMON_V + ['A-sink'],
      level_text='Proof, for an arbitrary inner channel satisfying the Channel contract (which BaseChannel is proved to satisfy), that MaxRequests hands out a request only while fewer than L others are in flight; that everything it writes while reading is a WouldBlock error reply for a request it just read, sent through start_send (which untracks it, so it is never executed); and the clause "refused only if L others really were in flight when it was read".',
      level_note='Known finding F7: the last clause fails on the real code (limit tested before the inner read).')
+
+prop('C19', title='Request hooks run in order and short-circuit correctly',
+     kani=['k4_hook_then_serve', 'k4_serve_then_hook', 'k4_before_and_after', 'k4_chain_api_order_and_short_circuit', 'k4_empty_chain_is_identity', 'k4_after_wraps_inner_before_error', 'k4_cons_first_then_rest_any_rest'],
+     technique=TECH_K + '; generic code instantiated with nondeterministic hooks/handlers (symbolic pass/fail, context and result mutation, event recorder); list length by structural induction (Cons with arbitrary Rest)',
+     assumptions=['A-verifiers'],
+     level_text='CBMC proof on the real generic combinators with fully nondeterministic hook and handler behaviour: order, context threading, short-circuit, exactly-once after-hook (also on inner errors), result pass-through and rewrite; BeforeRequestCons is proved against an arbitrary rest (induction step) and Nil as base, so every chain length is covered.',
+     level_note='The one-poll executor makes a suspending hook out of scope (hooks whose futures return Pending are resumed by the same state machine; not modelled). Unwinding assertions are on.',
+     not_covered='hooks that suspend; `then_fn` closure adaptor (forwards to then)')
+prop('C20', title='Load-balancing and retry stubs keep their dispatch promises',
+     kani=['k5_cycle_next_is_counter_mod_len', 'k5_round_robin_call_uses_next', 'k5_consistent_hash_valid_and_stable', 'k5_serve_as_stub_passes_through'],
+     native=['retry_bounded'],
+     technique=TECH_K + '; Retry::call: bounded native stand-in (exhaustive to 5 attempts)',
+     assumptions=['A-verifiers', 'A-ids'],
+     level_text='CBMC proof that State::next returns element (counter % len) and advances the atomic counter by exactly one for every counter value including the wrap (so concurrent calls get consecutive distinct counters); that ConsistentHash picks hash % len < len, never panics and is a function of the request hash only (symbolic hasher); that a Serve used as a Stub passes context, request and result through. Backend counts are enumerated (1..=4 / 1..=3): labelled bounded in that dimension.',
+     level_note='Retry::call is only checked by a bounded native stand-in (Kani ICE on tracing::trace!, Verus cannot take async trait fns): not counted as proved. The fairness corollary (per-backend counts differ by at most one over consecutive counters) is arithmetic on counter % len and is not machine-checked here.',
+     bounded=['backend count dimension enumerated (cycle 1..=4, consistent hash 1..=3, round robin 3)'],
+     not_covered='fairness corollary as a checked lemma; Retry beyond 5 attempts')
